@@ -74,6 +74,8 @@ Spec == Init /\ [][Next]_vars
 
 Bare(st) == [labels |-> [i \in 1..Len(st.labels) |-> st.labels[i].name],
              n |-> [kk |-> st.n.k, a |-> st.n.a, b |-> st.n.b, c |-> st.n.c, m |-> st.n.m, lbl |-> st.n.lbl, str |-> st.n.str, strb |-> st.n.strb]]
+\* RP: every rendering, for the harness to give to the real parser (`lc3v replay parse`)
+Emit == phase = "read" => PrintT(<<"HIST", Render(Stmts(o)[k], o).bytes>>)
 ReadsBack ==
   phase = "read" =>
     LET st == Stmts(o)[k]
